@@ -50,6 +50,10 @@ func ResetGlobals() {
 
 var defaultProvider = restful.CurrentCompressorProvider()
 
+// OriginalDefaultContainer is the package-level DefaultContainer as the library's init() built
+// it (ResetGlobals installs fresh ones afterwards).
+var OriginalDefaultContainer = restful.DefaultContainer
+
 // SetTrace switches trace logging (to a discarding logger).
 func SetTrace(on bool) {
 	restful.TraceLogger(discard{})
@@ -151,6 +155,8 @@ func NewService(s model.ServiceSpec, rec *Recorder, h RouteHandler) *restful.Web
 		// no Path() call at all
 	case s.RootForm == 1 && len(s.Root) > 0:
 		ws.Path(s.Root.String() + "/")
+	case s.RootForm == 3 && len(s.Root) > 0 && s.Root[0].Kind != model.Lit:
+		ws.Path(s.Root.String()[1:]) // "{tenant}/items": no leading slash
 	default:
 		ws.Path(s.Root.String())
 	}
@@ -170,7 +176,19 @@ func NewService(s model.ServiceSpec, rec *Recorder, h RouteHandler) *restful.Web
 			chain.ProcessFilter(req, resp)
 		})
 	}
+	late := false
 	for _, r := range s.Routes {
+		if r.Late != late {
+			// the WebService's default media types are set again before this route is registered
+			late = r.Late
+			if late {
+				ws.Consumes(s.Consumes2...)
+				ws.Produces(s.Produces2...)
+			} else {
+				ws.Consumes(s.Consumes...)
+				ws.Produces(s.Produces...)
+			}
+		}
 		ws.Route(NewRoute(ws, r, rec, h))
 	}
 	return ws
